@@ -87,9 +87,57 @@ try:
     except Exception as ex:  # noqa
         out['scorer:markov'] = 'raised ' + type(ex).__name__
     lex.cluster(method='sca', threshold=0.45, ref='scaid', override=True)
+    # the clustering and tree functions repeated on one and the same matrix object (a list of lists and a numpy array)
+    try:
+        import numpy as np
+        from lingpy.algorithm import clustering as clu
+        from lingpy.basic.wordlist import Wordlist as _WL
+        dm = [[float(x) for x in row] for row in _WL.get_distances(lex, ref='scaid')]
+        names = list(lex.cols)
+        offd = sorted(dm[i][j] for i in range(len(dm)) for j in range(i))
+        thr = (offd[len(offd) // 2] + 0.01) if offd else 0.5   # a threshold that joins about half of the pairs
+        for cname, make in (('list', lambda: [list(r) for r in dm]), ('ndarray', lambda: np.array(dm))):
+            for fname, call in (('mcl', lambda m: clu.mcl(thr, m, names)),
+                                ('flat_cluster:upgma', lambda m: clu.flat_cluster('upgma', thr, m, names)),
+                                ('flat_cluster:ward', lambda m: clu.flat_cluster('ward', thr, m, names)),
+                                ('link_clustering', lambda m: clu.link_clustering(thr, m, names)),
+                                ('upgma', lambda m: clu.upgma(m, names)),
+                                ('neighbor', lambda m: clu.neighbor(m, names))):
+                try:
+                    m = make()
+                    r1 = repr(call(m))
+                    r2 = repr(call(m))
+                    out['repeat:%s twice on one %s' % (fname, cname)] = r1 == r2
+                except Exception as ex:  # noqa
+                    out['note:%s on %s raised %s' % (fname, cname, type(ex).__name__)] = True
+    except Exception as ex:  # noqa
+        out['note:matrix repetitions raised ' + type(ex).__name__] = True
     alm = Alignments(lex, ref='scaid')
     alm.align()
     out['alignment'] = dig([list(alm[k, 'alignment']) for k in sorted(alm._data)])
+    # with iterative refinement (off by default): the partitions are realigned one after another, so their order matters
+    alm_it = Alignments(lex, ref='scaid')
+    alm_it.align(iteration=True)
+    out['alignment:iteration'] = dig([list(alm_it[k, 'alignment']) for k in sorted(alm_it._data)])
+    alm_lib = Alignments(lex, ref='scaid')
+    alm_lib.align(method='library', iteration=True, swap_check=True)
+    out['alignment:library+iteration+swap_check'] = dig([list(alm_lib[k, 'alignment']) for k in sorted(alm_lib._data)])
+    # multiple alignment with every kind of iterative refinement on word sets drawn from the wordlist itself and from a fixed pool
+    from lingpy.align.multiple import Multiple
+    pool = sorted(set(str(lex[k, 'ipa']) for k in lex._data)) + ['tʰɔxtər', 'dɔːtər', 'dɔxtər', 'dotər', 'hant', 'hænd', 'hɑnt', 'hand', 'ʃtɛrn',
+                                                                  'stɑːr', 'stjɛrna', 'vɔlf', 'wʊlf', 'ulv', 'fɪʃ', 'pisk', 'fisk', 'waldemar', 'woldemort',
+                                                                  'vladimir', 'kaːu̯ən', 'ɡəʃaft', 'wɔːtər', 'vasər', 'vatn', 'voda']
+    rnd = random.Random(777)
+    msas = []
+    for _ in range(25):
+        words = rnd.sample(pool, min(len(pool), rnd.choice([5, 6, 7, 8])))
+        m = Multiple(words)
+        m.prog_align()
+        m.iterate_similar_gap_sites()
+        m.iterate_clusters(0.5)
+        m.iterate_orphans()
+        msas.append([' '.join(r) for r in m.alm_matrix])
+    out['multiple:iterations'] = dig(msas)
     try:
         lex.calculate('tree', ref='scaid', tree_calc='neighbor')
         out['tree'] = str(lex.tree)
